@@ -25,7 +25,7 @@ def universe():
         'dt1': D(2020, 1, 1), 'dt2': D(2021, 6, 1, 12, 30), 'date1': datetime.date(2020, 1, 1),
         'np_i1': np.int64(1), 'np_f2.5': np.float64(2.5), 'np_dt2': np.datetime64('2021-06-01T12:30'), 'np_true': np.bool_(True),
         't_empty': (), 'l_empty': [], 'd_empty_a': {}, 'd_empty_b': {},
-        't_1': (1,), 'l_1': [1], 't_1_2': (1, 2), 't_1_2f': (1, 2.0), 't_1_a': (1, 'a'), 't_None_1': (None, 1), 'l_None': [None],
+        't_1': (1,), 'l_1': [1], 'l_True': [True], 'l_0.5': [0.5], 'l_0': [0], 'l_False': [False], 't_1_2': (1, 2), 't_1_2f': (1, 2.0), 't_1_a': (1, 'a'), 't_None_1': (None, 1), 'l_None': [None],       # [1] == [True] natively, yet bool and number rank by type
         't_nan_1': (nan, 1), 't_1_nan': (1, float('nan')),
         'd_a1': {'a': 1}, 'd_a1_copy': {'a': 1}, 'd_a2': {'a': 2}, 'd_b1': {'b': 1}, 'd_a_t12': {'a': (1, 2)},
         'd_a1b2': {'a': 1, 'b': 2}, 'd_b2a1': {'b': 2, 'a': 1},
